@@ -1012,10 +1012,12 @@ func init() {
 		} else {
 			p.Runs = append(p.Runs, schedRun("realtime-two-datatypes-one-client-b2", 2, rt2k, 0), schedRun("realtime-key-with-slash-b2", 2, rtSlash, 0))
 			p.Runs = append(p.Runs, schedRun("realtime-counter-slow-listener-b2", 2, rtl("counter"), 0), schedRun("realtime-list-slow-listener-b1", 1, rtl("list"), 0))
-			p.Runs = append(p.Runs, schedRun("realtime-counter-2-b3", 3, rt(2, "counter", true), 0), schedRun("realtime-list-2-b2", 2, rt(2, "list", true), 0), schedRun("realtime-counter-3-b2", 2, rt(3, "counter", false), 0))
+			p.Runs = append(p.Runs, schedRun("realtime-list-2-b2", 2, rt(2, "list", true), 0), schedRun("realtime-counter-3-b2", 2, rt(3, "counter", false), 0))
 			p.Runs = append(p.Runs, schedRun("realtime-counter-2ops-listener-b2", 2, rt2("counter"), 0), schedRun("realtime-counter-2ops-eager-spawn-b2", 2, rt2e("counter"), 0),
 				schedRun("realtime-map-2-b2", 2, rt(2, "map", true), 0), schedRun("realtime-doc-2-b2", 2, rt(2, "doc", true), 0),
 				schedRun("realtime-counter-4-b1", 1, rt(4, "counter", false), 0), schedRun("realtime-counter-5-b1", 1, rt(5, "counter", false), 0))
+			// last: it takes what is left of the budget (about 1.4e8 transitions at bound 3; reported as not exhaustive when the budget ends it)
+			p.Runs = append(p.Runs, schedRun("realtime-counter-2-b3", 3, rt(2, "counter", true), 0))
 		}
 		return p
 	}
